@@ -33,7 +33,7 @@ def sp5(model):
         if isinstance(n, ast.If) and isinstance(n.test, ast.Compare) and isinstance(n.test.ops[0], ast.Eq) \
                 and isinstance(n.test.comparators[0], ast.Constant):
             ch = n.test.comparators[0].value
-            for c in ast.walk(n):
+            for c in (x for b in n.body for x in ast.walk(b)):
                 if isinstance(c, ast.Call) and T.call_name(c) in makers:
                     if ch in tab:
                         r.ok(n, 'character %r handled by %s is a key of special_tokens' % (ch, T.call_name(c)),
@@ -778,8 +778,16 @@ def ac3(model):
                 and not isinstance(n.value, ast.Constant):
             attr = n.targets[0].attr
             seen.add(attr)
+            facts0 = []
+            guards.split_fact(n.value, True, facts0)
             facts = []
-            guards.split_fact(n.value, True, facts)
+            for e, t in facts0:
+                if isinstance(e, ast.Name):
+                    vals = T.resolve_local(model, e)
+                    if len(vals) == 1 and vals[0] is not e:
+                        guards.split_fact(vals[0], t, facts)
+                        continue
+                facts.append((e, t))
             has_nl = [(e, t) for e, t in facts if isinstance(e, ast.Compare) and isinstance(e.left, ast.Constant)
                       and e.left.value == '\n' and isinstance(e.ops[0], (ast.In, ast.NotIn))]
             ok = any((isinstance(e.ops[0], ast.In) == t) == want[attr] for e, t in has_nl)
